@@ -236,6 +236,7 @@ abbrev Store := List (String × Val)
 
 inductive EvalErr where
   | undeclared | notInt | notArray | outOfBounds | divByZero | unsupported | isArray | noField
+  | shiftRange     -- shift count outside 0..31
   | crash          -- the C++ terminates abnormally here (signal) instead of raising an error
   deriving Repr, BEq, DecidableEq, Inhabited
 
@@ -247,9 +248,14 @@ def b2i (b : Bool) : Int := if b then 1 else 0
 def cdiv (a b : Int) : Int := Int.tdiv a b
 def cmod (a b : Int) : Int := Int.tmod a b
 
-/-- `<<`, `>>` on ints (no overflow by hypothesis; negative counts are undefined and excluded) -/
+/-- `<<`, `>>` on ints for counts in 0..31 (`>>` is arithmetic: floor division) -/
 def shl (a b : Int) : Int := a * (2 : Int) ^ b.toNat
 def shr (a b : Int) : Int := a / (2 : Int) ^ b.toNat
+
+/-- Promela's `int`: 32 bit two's complement; arithmetic wraps around -/
+def wrap32 (x : Int) : Int := (x + 2147483648) % 4294967296 - 2147483648
+
+def inInt32 (x : Int) : Bool := -2147483648 ≤ x && x ≤ 2147483647
 
 /-- which binary operators `evaluateExpr` has a case for -/
 structure Impl where
@@ -257,6 +263,12 @@ structure Impl where
   hasUnaryMinus : Bool
   checksZeroDivisor : Bool
   checksNegativeIndex : Bool
+  wrapsOverflow : Bool := true   -- false: signed overflow / out-of-range shifts are undefined behaviour in the C++
+
+/-- the result of an arithmetic operation whose exact value is `v`: wrapped to 32 bits; an
+implementation computing in `int` without care has undefined behaviour when `v` does not fit -/
+def arith (impl : Impl) (v : Int) : Except EvalErr Int :=
+  if impl.wrapsOverflow then .ok (wrap32 v) else if inInt32 v then .ok v else .error .crash
 
 /-- the evaluator of the C++ (`impl` = what is implemented; both operands are always evaluated,
 left first; `&&`/`||` short-circuit) -/
@@ -303,10 +315,15 @@ def evalModel (impl : Impl) (σ : Store) : PExpr → Except EvalErr Int
       let a ← evalModel impl σ l
       let b ← evalModel impl σ r
       match op with
-      | .plus => .ok (a + b) | .minus => .ok (a - b) | .times => .ok (a * b)
-      | .divide => if b == 0 then (if impl.checksZeroDivisor then .error .divByZero else .error .crash) else .ok (cdiv a b)
-      | .modulo => if b == 0 then (if impl.checksZeroDivisor then .error .divByZero else .error .crash) else .ok (cmod a b)
-      | .lshift => .ok (shl a b) | .rshift => .ok (shr a b)
+      | .plus => arith impl (a + b) | .minus => arith impl (a - b) | .times => arith impl (a * b)
+      | .divide => if b == 0 then (if impl.checksZeroDivisor then .error .divByZero else .error .crash) else arith impl (cdiv a b)
+      | .modulo => if b == 0 then (if impl.checksZeroDivisor then .error .divByZero else .error .crash) else arith impl (cmod a b)
+      | .lshift =>
+        if b < 0 || b > 31 then (if impl.wrapsOverflow then .error .shiftRange else .error .crash)
+        else .ok (wrap32 (shl a b))
+      | .rshift =>
+        if b < 0 || b > 31 then (if impl.wrapsOverflow then .error .shiftRange else .error .crash)
+        else .ok (shr a b)
       | .lt => .ok (b2i (a < b)) | .le => .ok (b2i (a ≤ b)) | .gt => .ok (b2i (a > b)) | .ge => .ok (b2i (a ≥ b))
       | .eq => .ok (b2i (a == b)) | .ne => .ok (b2i (a != b))
       | .and => .ok (b2i (a != 0 && b != 0)) | .or => .ok (b2i (a != 0 || b != 0))
@@ -318,7 +335,7 @@ def evalModel (impl : Impl) (σ : Store) : PExpr → Except EvalErr Int
     if !impl.hasUnaryMinus then .error .crash
     else
       let a ← evalModel impl σ e
-      .ok (-a)
+      arith impl (-a)
 
 /-- everything implemented, every fault reported: the evaluator Promela/C defines -/
 def fullImpl : Impl := { hasOp := fun _ => true, hasUnaryMinus := true, checksZeroDivisor := true, checksNegativeIndex := true }
